@@ -105,7 +105,7 @@ fn execute(sc: &Scenario, st: &mut RunStats) -> Vec<Violation> {
         if seeded {
             st.probe("seeded_run");
             let seed = subj.wit.seed().unwrap();
-            let mut check = |name: String, got: Scalar, label: &str, j: Option<usize>, k: usize| -> Option<Violation> {
+            let check = |name: String, got: Scalar, label: &str, j: Option<usize>, k: usize| -> Option<Violation> {
                 let want = reference_nonce(&seed, label, j, Some(k));
                 if got != want {
                     Some(Violation::new(
